@@ -469,3 +469,60 @@ func dependsOnCtl(v ssa.Value, pred func(ssa.Value) bool) bool {
 	}
 	return visit(v)
 }
+
+// ---- C08-D4: the tail of a split summarize groups by key name.
+func runSplitSummarizeTailKeys(c *Ctx, rule string) {
+	p := c.P
+	c.Rule(rule, "when a summarize is split into per-leg partial aggregations and a combining tail, the tail's key expressions are replaced by references to the key names (Keys[k].RHS = Keys[k].LHS) on the path that sets PartialsIn: the legs have already evaluated the key expressions, so evaluating them again on partial rows regroups computed keys wrongly")
+	fn := p.Func("(*compiler/optimizer.Optimizer).liftIntoParPaths")
+	if fn == nil {
+		c.Undecided(rule, "liftIntoParPaths", "anchor does not resolve")
+		return
+	}
+	var setIn *ssa.Store
+	for _, b := range fn.Blocks {
+		for _, in := range b.Instrs {
+			st, ok := in.(*ssa.Store)
+			if !ok {
+				continue
+			}
+			if fa, ok := st.Addr.(*ssa.FieldAddr); ok && namedOf(fa.X.Type()) == "compiler/ast/dag.Summarize" && fieldName(fa.X.Type(), fa.Field) == "PartialsIn" {
+				setIn = st
+			}
+		}
+	}
+	if setIn == nil {
+		c.Undecided(rule, "liftIntoParPaths", "store to Summarize.PartialsIn not found")
+		return
+	}
+	ok := false
+	var pos token.Pos
+	for _, b := range fn.Blocks {
+		for _, in := range b.Instrs {
+			st, isSt := in.(*ssa.Store)
+			if !isSt {
+				continue
+			}
+			fa, isFa := st.Addr.(*ssa.FieldAddr)
+			if !isFa || namedOf(fa.X.Type()) != "compiler/ast/dag.Assignment" || fieldName(fa.X.Type(), fa.Field) != "RHS" {
+				continue
+			}
+			fromLHS := dependsOn(st.Val, func(v ssa.Value) bool {
+				f, ok := v.(*ssa.FieldAddr)
+				return ok && namedOf(f.X.Type()) == "compiler/ast/dag.Assignment" && fieldName(f.X.Type(), f.Field) == "LHS"
+			})
+			onKeys := dependsOn(fa.X, func(v ssa.Value) bool {
+				f, ok := v.(*ssa.FieldAddr)
+				return ok && namedOf(f.X.Type()) == "compiler/ast/dag.Summarize" && fieldName(f.X.Type(), f.Field) == "Keys"
+			})
+			if fromLHS && onKeys && setIn.Block().Dominates(b) && inCycle(fn, st) {
+				ok, pos = true, st.Pos()
+			}
+		}
+	}
+	if ok {
+		c.OK(rule, "liftIntoParPaths summarize tail keys", pos, "Keys[k].RHS = Keys[k].LHS for every key after PartialsIn is set")
+	} else {
+		c.Fail(rule, "liftIntoParPaths summarize tail keys", setIn.Pos(), "the combining summarize keeps the original key expressions: it evaluates them on the partial rows produced by the legs (where the key already holds the computed value), so groups with computed keys are merged wrongly and results depend on the degree of parallelism")
+	}
+}
